@@ -14,7 +14,7 @@ export function* workload({ tier, seed, prefix = 'C07' }) {
   // 1. explicit odd forms under every boolean option combination (thorough) / a covering sample (quick)
   const combos = allOptionCombos();
   for (const f of ODD_FORMS) {
-    const src = /^(class|x =|let|a =|a \+=|\(\{|\/\*|\/\/|const|`|tag`|async function|function)/.test(f) ? f : `const v = ${f};`;
+    const src = /^(class|x =|let|a =|a \+=|\(\{|\/\*|\/\/|const|`|tag`|async function|function|for \(|while \(|do )/.test(f) ? f : `const v = ${f};`;
     const opts = tier === 'quick' ? [{}, { optimize: true }, { enableObjectSlots: false, mergeProps: false }, combos[rng.int(32)], { ...combos[rng.int(32)], pragma: 'h' }] : [...combos, ...combos.filter((_, i) => i % 4 === 0).map((o) => ({ ...o, pragma: 'h' }))];
     yield one(src, 'jsx', opts, `odd|${f.slice(0, 40)}`);
     if (tier !== 'quick' || rng.bool(0.3)) yield one(src, 'tsx', tier === 'quick' ? [{}] : [{}, { optimize: true, resolveType: true }], `odd-tsx|${f.slice(0, 40)}`);
